@@ -181,6 +181,15 @@ def check(ctx):
         G(pr, lang, "defaults", {}, ws_family if (not quick or lang not in ("C", "CPP")) else sp_family, None, 1)
         for bn, b in sp_bases.items():
             G(pr, lang, bn, b, None, None, 0)
+    # (e') the language units written for the code-modifying options (import/using runs, using(), Pawn optional semicolons, OC
+    #      property attributes, Boolean right-hand sides, mixed include lines): whitespace options singly
+    from ..universe import langunits
+    for lang in langunits.UNITS:
+        for name, src, meta in langunits.units(lang):
+            pr = (name, src, {"ctx": "lang", "self": lang not in oracles.INDEP_LANGS})
+            G(pr, lang, "defaults", {}, ws_family, None, 1)
+            for bn, b in sp_bases.items():
+                G(pr, lang, bn, b, None, None, 0)
     # profiles (whitespace projection) on everything small
     for pn, p in P.items():
         if pn == "defaults":
